@@ -814,10 +814,34 @@ func (ex *Exec) globalCell(st *State, name string, t types.Type) *Cell {
 					stt := sv.Typ.Underlying().(*types.Struct)
 					nf := append([]Val{}, sv.F...)
 					for i := 0; i < stt.NumFields(); i++ {
-						if cv, ok := ex.P.Consts[name+"->"+stt.Field(i).Name()]; ok {
-							if bi, ok := new(big.Int).SetString(cv, 10); ok {
-								nf[i] = Scalar{ex.intConst(bi, stt.Field(i).Type())}
+						fname := name + "->" + stt.Field(i).Name()
+						cv, ok := ex.P.Consts[fname]
+						if !ok {
+							continue
+						}
+						if isBigIntPtr(stt.Field(i).Type()) {
+							// a *big.Int field of the pointee: a fixed reference whose value was read from the initialiser
+							if cv == "nil" {
+								nf[i] = PtrV{K: PBig, Ref: IntC(0), Elem: stt.Field(i).Type().(*types.Pointer).Elem()}
+								continue
 							}
+							id, have := ex.P.BigGlobals[fname]
+							if !have {
+								continue
+							}
+							nf[i] = PtrV{K: PBig, Ref: IntC(int64(id)), Elem: stt.Field(i).Type().(*types.Pointer).Elem()}
+							if ex.constSeen == nil {
+								ex.constSeen = map[string]bool{}
+							}
+							if !ex.constSeen[fname] {
+								ex.constSeen[fname] = true
+								bi, _ := newBig(cv)
+								ex.Assumes = append(ex.Assumes, Eq(Select(Sym("heap0", ArraySort(IntSort, IntSort)), IntC(int64(id))), IntBig(bi)))
+							}
+							continue
+						}
+						if bi, ok := new(big.Int).SetString(cv, 10); ok {
+							nf[i] = Scalar{ex.intConst(bi, stt.Field(i).Type())}
 						}
 					}
 					st.Cells[pv.Cell] = StructV{Typ: sv.Typ, F: nf}
